@@ -272,12 +272,29 @@ func runC16(c *an.Ctx) {
 				continue
 			}
 			// guarded by a boolean that is set when the parameter id is found in splitargs
+			// the flag: a boolean computed from the splitargs parameter (a search loop's phi, or
+			// slices.Contains(splitargs, id))
+			splitParams := map[ssa.Value]bool{}
+			for _, prm := range bca.Params {
+				if sl, ok := prm.Type().Underlying().(*types.Slice); ok && isStringType(sl.Elem()) {
+					splitParams[prm] = true
+				}
+			}
 			g, _ := an.GuardedBy(st, func(r an.Rel) bool {
-				if r.Op != token.ILLEGAL || !r.Truth {
+				if r.Op != token.ILLEGAL || !r.Truth || !isBoolType(r.X.Type()) {
 					return false
 				}
-				ph, ok := r.X.(*ssa.Phi)
-				return ok && isBoolType(ph.Type())
+				switch x := r.X.(type) {
+				case *ssa.Phi:
+					return true
+				case *ssa.Call:
+					for _, a := range x.Call.Args {
+						if splitParams[a] {
+							return true
+						}
+					}
+				}
+				return false
 			})
 			if g {
 				wrapped = true
@@ -293,26 +310,55 @@ func runC16(c *an.Ctx) {
 	bcs := c.NeedFunc(pkgCore, "BuildCallSource")
 	if wi != nil && resolveInputs != nil && bcs != nil {
 		var ri, bc *ssa.Call
-		an.Instrs(wi, func(in ssa.Instruction) {
-			if call, ok := in.(*ssa.Call); ok {
-				switch call.Call.StaticCallee() {
-				case resolveInputs:
-					ri = call
-				case bcs:
-					bc = call
+		var bcHost *ssa.Function
+		for _, m := range familyOf(p, wi, 2) {
+			m := m
+			an.Instrs(m, func(in ssa.Instruction) {
+				if call, ok := in.(*ssa.Call); ok {
+					switch call.Call.StaticCallee() {
+					case resolveInputs:
+						if m == wi {
+							ri = call
+						}
+					case bcs:
+						bc, bcHost = call, m
+					}
 				}
-			}
-		})
+			})
+		}
 		okFork, okArgs, okWrite := false, false, false
 		if ri != nil && len(ri.Call.Args) >= 2 {
 			forkIdF := p.Field(pkgCore, "Fork", "forkId")
 			okFork = an.LoadsField(ri.Call.Args[1], forkIdF)
 		}
 		if ri != nil && bc != nil {
+			fromRI := func(v ssa.Value) bool {
+				ex, ok := v.(*ssa.Extract)
+				return ok && ex.Tuple == ssa.Value(ri)
+			}
 			nFrom := 0
-			for _, a := range bc.Call.Args {
-				if ex, ok := a.(*ssa.Extract); ok && ex.Tuple == ssa.Value(ri) {
-					nFrom++
+			var viaHelper *ssa.Call // the call of the helper that wraps BuildCallSource, if any
+			if bcHost == wi {
+				for _, a := range bc.Call.Args {
+					if fromRI(a) {
+						nFrom++
+					}
+				}
+			} else {
+				// the helper's parameters that reach BuildCallSource must be fed from resolveInputs at its call
+				for _, cs := range callsTo(wi, bcHost) {
+					hc, ok := cs.(*ssa.Call)
+					if !ok {
+						continue
+					}
+					viaHelper = hc
+					for _, a := range bc.Call.Args {
+						for i, prm := range bcHost.Params {
+							if a == ssa.Value(prm) && i < len(hc.Call.Args) && fromRI(hc.Call.Args[i]) {
+								nFrom++
+							}
+						}
+					}
 				}
 			}
 			okArgs = nFrom >= 2
@@ -323,6 +369,21 @@ func runC16(c *an.Ctx) {
 						sl.add(a)
 						for v := range sl.seen {
 							if ex, ok := v.(*ssa.Extract); ok && ex.Tuple == ssa.Value(bc) {
+								okWrite = true
+							}
+							if viaHelper != nil && (v == ssa.Value(viaHelper)) {
+								// the helper must return BuildCallSource's text
+								an.Instrs(bcHost, func(in2 ssa.Instruction) {
+									if r, ok := in2.(*ssa.Return); ok {
+										for i := range r.Results {
+											if ex, ok := an.RetVal(r, i).(*ssa.Extract); ok && ex.Tuple == ssa.Value(bc) {
+												okWrite = true
+											}
+										}
+									}
+								})
+							}
+							if ex, ok := v.(*ssa.Extract); ok && viaHelper != nil && ex.Tuple == ssa.Value(viaHelper) {
 								okWrite = true
 							}
 						}
